@@ -98,3 +98,29 @@ func (r zzResult) zzOut0() tensor.Tensor {
 	}
 	return r.Outs[0]
 }
+
+// zzInitOp looks an operator up and initialises it (one instance, to be applied several times).
+func zzInitOp(v *zzverif.T, opType string, attrs []*onnx.AttributeProto) (op ops.Operator, err error, panicked bool) {
+	panicked = v.Try(func() {
+		op, err = GetOperator(opType)
+		if err == nil {
+			err = op.Init(&onnx.NodeProto{OpType: opType, Attribute: attrs})
+		}
+	})
+	return
+}
+
+// zzApplyOn validates and applies an already initialised operator instance.
+func zzApplyOn(v *zzverif.T, op ops.Operator, inputs []tensor.Tensor) zzResult {
+	var r zzResult
+	r.Panicked = v.Try(func() {
+		in, err := op.ValidateInputs(inputs)
+		if err != nil {
+			r.Err, r.Stage = err, "validate"
+			return
+		}
+		outs, err := op.Apply(in)
+		r.Outs, r.Err, r.Stage = outs, err, "apply"
+	})
+	return r
+}
